@@ -980,7 +980,7 @@ fn bulk_case(tr: &mut Tracer, st: &mut Stats, a: &Args, name: &str, dom: &str, p
         }
     }
     if !dead {
-        let full2 = xs.len() <= 300;
+        let full2 = xs.len() <= 130 || (a.thorough() && xs.len() <= 1000);
         if !read_all(tr, st, c.as_ref(), xs.len(), r, full2) {
             dead = true;
         }
@@ -1085,18 +1085,38 @@ fn cases(a: &Args, name: &str) -> Vec<(&'static str, i128, i128, &'static str, u
     let mut v = vec![];
     let fam = fam_of(name);
     let doms = domains(name);
+    let quick = !a.thorough();
+    // the delegating IntVec constructors take every second (profile, length) pair in the quick tier
+    let half = quick && fam == "intvec" && !name.ends_with(":from_slice");
     for (di, &(dom, lo, hi)) in doms.iter().enumerate() {
+        let secondary = di > 0;
         for (pi, &p) in PROFILES.iter().enumerate() {
-            // secondary domains: a rotating third of the profiles in the quick tier
-            let secondary = di > 0;
-            for &n in LENS_ALL {
-                if !a.thorough() && secondary && !(n == 0 || n == 2 || n == 65 || n == 129 || n == 257 || n == 1000) {
+            // sorted input makes several profiles alike: the quick tier keeps the distinct ones
+            if quick && fam == "sorted" && matches!(p, "alt" | "allbits" | "lo_small") {
+                continue;
+            }
+            // SortedUintVec: the lengths around the boundaries of ITS block size (quick: only those)
+            let mut lens: Vec<usize> = LENS_ALL.to_vec();
+            if fam == "sorted" {
+                let bs = sorted_cfg(variant_of(name)).block_size();
+                let around = [0, 1, 2, bs - 1, bs, bs + 1, 2 * bs - 1, 2 * bs, 2 * bs + 1, 1000];
+                if quick {
+                    lens = around.to_vec();
+                } else {
+                    lens.extend(around.iter().filter(|n| !LENS_ALL.contains(n)));
+                }
+                if quick && secondary {
+                    lens = vec![2, bs + 1];
+                }
+            }
+            for (li, &n) in lens.iter().enumerate() {
+                if quick && secondary && fam != "sorted" && !(n == 0 || n == 2 || n == 65 || n == 257) {
                     continue;
                 }
-                if !a.thorough() && secondary && fam == "sorted" && (n == 129 || n == 1000) && pi % 2 == 0 {
+                if quick && fam == "sorted" && n == 1000 && (pi + sorted_cfg(variant_of(name)).log2_block_units as usize) % 2 == 1 {
                     continue;
                 }
-                if !a.thorough() && fam == "sorted" && (n == 63 || n == 127 || n == 255) && pi % 2 == 1 {
+                if half && n > 2 && (pi + li) % 2 == 1 {
                     continue;
                 }
                 v.push((dom, lo, hi, p, n));
@@ -1109,21 +1129,30 @@ fn cases(a: &Args, name: &str) -> Vec<(&'static str, i128, i128, &'static str, u
                     true
                 } else {
                     match fam {
-                        // every (type, profile) gets one constructor per long length, rotating with the seed
-                        // and one of the two long lengths per (type, profile)
+                        // quick: every second (type, profile) pair gets one long input: one constructor and
+                        // one of the two long lengths, rotating with the seed
                         "intvec" => {
-                            let k = k0;
-                            CTORS[((k % 3) as usize + pi) % 3] == name.rsplit(':').next().unwrap_or("") && ((k >> 8) as usize + pi + n) % 2 == 0
+                            (pi + (k0 >> 20) as usize) % 2 == 0
+                                && CTORS[((k0 % 3) as usize + pi) % 3] == name.rsplit(':').next().unwrap_or("")
+                                && ((k0 >> 8) as usize + pi / 2 + n) % 2 == 0
                         }
                         "sorted" => !secondary && name.ends_with("b6") && pi % 4 == (n % 4),
-                        _ => !secondary && pi % 2 == n % 2,
+                        _ => !secondary && pi % 4 == n % 4,
                     }
                 };
                 if take {
                     v.push((dom, lo, hi, p, n));
                 }
             }
-            if a.thorough() && (!secondary) && (fam != "sorted" || name.ends_with("b7")) {
+            // thorough: 70 000 elements (well beyond the strategy switch) for a rotating quarter of the profiles
+            let rot4 = pi % 4 == (k0 >> 12) as usize % 4;
+            let big70 = match fam {
+                "intvec" => name.ends_with(":from_slice") && rot4,
+                "sorted" => name.ends_with("default:b7") && rot4,
+                "uintvec" => true,
+                _ => rot4,
+            };
+            if a.thorough() && !secondary && big70 {
                 v.push((dom, lo, hi, p, 70000));
             }
         }
@@ -1165,7 +1194,7 @@ fn run_subject(tr: &mut Tracer, a: &Args, name: &str) -> Value {
         bulk_case(tr, &mut st, a, name, dom, profile, &xs, &mut r, false);
         // set() where offered: a second run on the same input
         let offers_set = matches!(fam_of(name), "uvm0" | "zipint");
-        if offers_set && (n == 2 || n == 65 || n == 257 || (a.thorough() && n == 1000)) {
+        if offers_set && (n == 2 || n == 65 || (a.thorough() && (n == 257 || n == 1000))) {
             bulk_case(tr, &mut st, a, name, dom, profile, &xs, &mut r, true);
         }
     }
